@@ -19,7 +19,7 @@ LEVEL = "exploration"
 RULE = ("Fake python-libusb1 backend injected through sys.modules['usb1'] before adb_shell is imported. (a) Hypothesis-generated call sequences on UsbTransport (connect, bulk_read(n,t), bulk_write(data,t), "
         "close, in any order; timeouts {None,0,0.0004,0.5,3} U floats; read sizes; backend short reads and short writes; a backend USBError of a drawn subclass injected at a drawn transfer index, and "
         "additionally enumerated at EVERY transfer index of a fixed sequence): claimInterface(interface number) on connect; every write goes to the OUT endpoint and every read to the IN endpoint with the "
-        "data in order; a read never returns more than requested; timeout= is an int within 1 ms of 1000*t (of 1000*default for None); every USBError surfaces as UsbReadFailedError/UsbWriteFailedError; "
+        "data in order; a read never returns more than requested; timeout= is an int within 1 ms of 1000*t (of 1000*default for None); every USBError surfaces as UsbReadFailedError/UsbWriteFailedError, also when reading the serial number fails as well (device unplugged); "
         "after close() both calls raise those errors, also when the backend raises a USBError inside close() itself. (b) whole sessions through AdbDeviceUsb(serial=/port_path=) with 1-3 devices on the bus and the handle wired to the device simulator: results == model, "
         "host packets == the in-memory run. Non-trivial: a sequence/session with >= 1 short transfer or an injected error. Distinct = case hash.")
 ASSUMPTIONS = ["fidelity of the hand-written fake (advf/fakeusb1.py) to python-libusb1's documented behaviour", "device simulator for sessions"]
@@ -48,7 +48,8 @@ def seq_cases(draw):
             steps.append((k,))
     return {"steps": steps, "default_timeout": draw(st.sampled_from([None, 2, 7.5])), "error_at": draw(st.one_of(st.none(), st.integers(0, 10))),
             "error": draw(st.integers(0, len(ERRS) - 1)), "kernel_driver": draw(st.sampled_from([False, True, "notfound"])),
-            "close_error": draw(st.sampled_from([None, None, "release", "close"]))}       # a USBError raised by the backend inside close()
+            "close_error": draw(st.sampled_from([None, None, "release", "close"])),       # a USBError raised by the backend inside close()
+            "unplugged": draw(st.sampled_from([False, False, True]))}                       # reading the serial number fails too (device gone)
 
 
 def check_seq(case):
@@ -78,6 +79,7 @@ def check_seq(case):
     dev.backend_read, dev.backend_write = backend_read, backend_write
     dev.release_error = case.get("close_error") == "release"
     dev.close_error = case.get("close_error") == "close"
+    dev.serial_error = bool(case.get("unplugged"))
     info = {"classes": ["sequence"] + (["close-error:" + case["close_error"]] if case.get("close_error") else [])}
     setting = dev.settings[-1]
     tr = UT.UsbTransport(dev, setting, usb_info="fake", default_transport_timeout_s=case["default_timeout"])
@@ -155,11 +157,16 @@ def check_seq(case):
                     call = W.calls[-1]
                     if call[0] != "bulkWrite" or call[1] != fakeusb1.EP_OUT:
                         return Violation("write-wrong-endpoint", "backend call %r" % (call,)), info
-                    exp = data if cap is None else data[:cap]
-                    if len(written) != nw + 1 or written[-1] != exp:
-                        return Violation("write-data-wrong", "backend received %r.., expected %r.." % (written[-1][:20] if len(written) > nw else None, exp[:20])), info
-                    if ret != len(exp):
-                        return Violation("write-count-wrong", "bulk_write returned %r, backend accepted %d" % (ret, len(exp))), info
+                    # implementation-agnostic: however the transport maps one bulk_write onto backend transfers, the bytes the backend accepted
+                    # during the call must be exactly the first `ret` bytes of the data, and a full count is required when nothing was short
+                    got_w = b"".join(written[nw:])
+                    if isinstance(ret, bool) or not isinstance(ret, int) or ret < 0 or ret > len(data):
+                        return Violation("write-count-wrong", "bulk_write returned %r for %d bytes" % (ret, len(data))), info
+                    if got_w != data[:ret]:
+                        return Violation("write-data-wrong", "bulk_write(%d bytes) returned %d but the backend accepted %d bytes that are not data[:%d] (first difference at %d)"
+                                         % (len(data), ret, len(got_w), ret, next((k for k, (x, y) in enumerate(zip(got_w, data)) if x != y), min(len(got_w), ret)))), info
+                    if (cap is None or cap >= len(data)) and ret != len(data):
+                        return Violation("write-count-wrong", "bulk_write returned %r although the backend accepted everything it was offered (%d bytes)" % (ret, len(data))), info
                     v = timeout_ok(call[3], t, default, i, step)
                     if v:
                         return v, info
@@ -199,6 +206,10 @@ def error_sweep_items(shard, nshards):
                 i += 1
                 if i % nshards == shard:
                     yield {"steps": steps, "default_timeout": 7.5, "error_at": k, "error": e, "kernel_driver": kd}
+                if kd is False:
+                    i += 1
+                    if i % nshards == shard:
+                        yield {"steps": steps, "default_timeout": 7.5, "error_at": k, "error": e, "kernel_driver": kd, "unplugged": True}
 
 
 # ----------------------------------------------------------------------------- sessions
@@ -207,6 +218,12 @@ def session_cases(draw):
     case = draw(sc.session(max_ops=4, big=False, with_wcap=True, with_frag=True))
     case["api"] = "sync"
     case["transport"]["flavour"] = "raises"
+    if draw(st.booleans()):
+        # a message of several tens of KiB through a backend that accepts at most 10-20 KB per transfer
+        case["device"]["maxdata"] = 1048576
+        case["ops"].append({"op": "push", "src": {"kind": "bytesio", "content": {"pat": draw(st.binary(min_size=1, max_size=5)), "n": draw(st.sampled_from([40000, 70000]))}},
+                            "path": "/usb-big", "mtime": 3, "cb": None})
+        case["transport"]["wcap"] = draw(st.sampled_from([[10000], [20000], [16384, 5000], [100000], []]))
     case["usb"] = {"select": draw(st.sampled_from(["serial", "port_path_list", "port_path_str", "first"])), "decoys": draw(st.integers(0, 2)),
                    "default_timeout": draw(st.sampled_from([None, 3.0, 9.0]))}
     return case
